@@ -116,6 +116,59 @@ pub fn segment(rng: &mut Rng, class: u64, len: usize, so_far: &[u8]) -> Vec<u8> 
         }
         6 => vec![0u8; len],
         7 => vec![0xFFu8; len],
+        9 => {
+            // runs of a two-letter alphabet whose boundaries sit around the 32 KiB dictionary wrap
+            // (32768 k + delta, delta in -3..=260) and whose lengths are often multiples of 258
+            let a = rng.below(256) as u8;
+            let b = a.wrapping_add(1 + rng.below(200) as u8);
+            let mut v: Vec<u8> = Vec::with_capacity(len + 600);
+            // the first 300 bytes decide what the mirror area of the ring holds
+            let head = rng.range(1, 300);
+            for i in 0..head.min(len) {
+                v.push(if rng.chance(1, 3) || i == 256 { a } else { b });
+            }
+            while v.len() < len {
+                let base = so_far.len() + v.len();
+                let next_wrap = (base / 32768 + 1) * 32768;
+                let delta = rng.range(0, 263) as i64 - 3;
+                let end = (next_wrap as i64 + delta) as usize; // exclusive end of the run
+                let mut run = if rng.chance(2, 3) { 258 * rng.range(1, 4) } else { rng.range(3, 900) };
+                if end < base + run {
+                    run = end.saturating_sub(base).max(1);
+                }
+                // filler up to the start of the run, then the run, then a different byte
+                let start = end - run;
+                while so_far.len() + v.len() < start && v.len() < len {
+                    let x = if rng.chance(1, 2) { b } else { rng.below(256) as u8 };
+                    v.push(x);
+                }
+                for _ in 0..run {
+                    v.push(a);
+                }
+                v.push(b);
+            }
+            v.truncate(len);
+            v
+        }
+        10 => {
+            // nearly incompressible: random bytes with a tunable density of short copies (0.2 % .. 5 %)
+            let per_mille = rng.range(2, 50);
+            let mut v: Vec<u8> = Vec::with_capacity(len + 300);
+            while v.len() < len {
+                if v.len() > 300 && rng.chance(per_mille as u64, 1000 * 4) {
+                    let l = rng.range(3, 8);
+                    let d = rng.range(1, v.len().min(32768));
+                    for _ in 0..l {
+                        let x = v[v.len() - d];
+                        v.push(x);
+                    }
+                } else {
+                    v.push(rng.below(256) as u8);
+                }
+            }
+            v.truncate(len);
+            v
+        }
         _ => {
             // mixture: alternating short random and short repeated phrases
             let mut v: Vec<u8> = Vec::with_capacity(len + 64);
